@@ -449,8 +449,8 @@ def replay(job, o, workroot, repo):
             return {"status": "unavailable", "detail": "replay driver did not build: " + info}
     os.environ.setdefault("STIR_CONFIG_DIR", os.path.join(repo, "src/config"))
     modes = [["header", workroot]] if "fss" in job.name else [["visible", workroot], ["scale", workroot]] if "K_pds_set" in job.name else []
-    for mode in modes + [["range"], ["paths"]] + ([] if "fss" in job.name else [["header", workroot]]) + ([] if "K_pds_set" in job.name else [["visible", workroot], ["scale", workroot]]):
+    for mode in modes + [["asym"], ["range"], ["paths"]] + ([] if "fss" in job.name else [["header", workroot]]) + ([] if "K_pds_set" in job.name else [["visible", workroot], ["scale", workroot]]):
         st, detail = native.run(exe, mode, timeout=900)
         if st == "confirmed":
             return {"status": "confirmed", "detail": detail, "command": "c02_replay " + " ".join(mode), "from_verifier_counterexample": False}
-    return {"status": "not-reproduced", "detail": "c02_replay range; c02_replay paths (in-memory, stream with permuted segment sequence, both storage orders); c02_replay header; c02_replay visible (file-backed, second reader after every write call); c02_replay scale (shorts with scale factor 0.5)"}
+    return {"status": "not-reproduced", "detail": "c02_replay range; c02_replay paths (in-memory, stream with permuted segment sequence, both storage orders); c02_replay header; c02_replay visible (file-backed, second reader after every write call); c02_replay scale (shorts with scale factor 0.5); c02_replay asym (asymmetric segment ranges)"}
